@@ -32,6 +32,9 @@ func mBufElem(typ string) VMatch {
 }
 
 func runC12(p *Prog, r *Report) {
+	if want("C12.12") {
+		ruleOptGetters(p, r, "C12.12", "journal strictness", "Options.GetStrict")
+	}
 	if want("C12.11") {
 		// the block tail is padded only when no header fits
 		ruleJournalTailPadding(p, r, "C12.11")
